@@ -115,7 +115,13 @@ func genC05(t *rapid.T) E1Case {
 		c.C05 = &C05Spec{Stress: rapid.IntRange(2, 8).Draw(t, "closers"), Rounds: 150}
 		return c
 	}
-	if rapid.IntRange(0, 199).Draw(t, "connectstress") == 113 {
+	// (the thorough tier generates some hundred times more cases: the stress is made that much rarer there, it costs
+	// a few hundred milliseconds of all cores)
+	connectOdds := 199
+	if core.Thorough() {
+		connectOdds = 7999
+	}
+	if rapid.IntRange(0, connectOdds).Draw(t, "connectstress") == 113 {
 		// channels created at the same moment through one bootstrap (its defaults: sequence ids, the channel holder)
 		c.C05 = &C05Spec{ConnectStress: rapid.IntRange(2, 8).Draw(t, "connectors"), Rounds: 300}
 		return c
